@@ -26,6 +26,8 @@ DROPS = {
     "R3": "named return value: `-> T` becomes `-> (r: T)` (ghost naming only)",
     "R7": "`match X { \"lit\" => {B1} .. ident => {Bn} }` (first arm a string literal) -> `{ let m__ = X; if str_eq(m__, \"lit\") {B1} else if .. else { let ident = m__; {Bn} } }` -- Rust's own semantics of matching a &str against literal patterns, first match wins; `str_eq` is specified as equality of the character sequences",
     "R8": "`let P = X.ok_or_else(|| E)?;` -> `let P = match X { ::std::option::Option::Some(v__) => v__, ::std::option::Option::None => return ::std::result::Result::Err(E) };` (the definition of Option::ok_or_else followed by `?` in a function whose error type is the closure's result type)",
+    "R9": "(opt-in, replaces R2) `format!(\"p0{}p1{name}p2\", a)` with only plain `{}` / `{ident}` holes -> `fmt_<hash>(&(a), &(name))`, a generated external_body fn whose assumed contract is `r@ == \"p0\"@ + a.disp() + \"p1\"@ + name.disp() + \"p2\"@` (std's documented meaning of a format string; `disp` is the Display rendering: the characters of a String / &str, the uninterpreted decimal rendering of an integer); an argument that contains a closure is replaced by an opaque String under the R4 conditions; any format spec (`{:?}`, width, positional index, named argument) is refused",
+    "R10": "(opt-in) a chain `A + B + C` in a function where `+` is only used on Strings -> `str_add(str_add(A, B), C)`; `str_add(a: String, b: &str)` is specified as concatenation of the character sequences (std: `impl Add<&str> for String` appends)",
     "R4": "expressions replaced by an opaque value on request of @@opaque-arg (only if they contain no return / ? / break / continue)",
 }
 
@@ -120,6 +122,189 @@ def rewrite_format(text, notes, where):
         j = match_close(ct, hit + 2)
         notes.append({"rule": "R2", "where": where, "dropped": text[ct[hit].start:ct[j].end]})
         text = text[:ct[hit].start] + "fmt_opaque()" + text[ct[j].end:]
+
+FMT_DECLS = {}   # name -> declaration text (R9)
+
+def _split_args(ct, lo, hi):
+    """split ct[lo:hi] at depth-0 commas -> list of (a, b) index ranges (non-empty)"""
+    res, k, start = [], lo, lo
+    while k < hi:
+        if ct[k].kind == "punct" and ct[k].text in "([{":
+            k = match_close(ct, k) + 1; continue
+        if ct[k].kind == "punct" and ct[k].text == ",":
+            if k > start: res.append((start, k))
+            start = k + 1
+        k += 1
+    if hi > start: res.append((start, hi))
+    return res
+
+def rewrite_format_template(text, notes, where):
+    """R9"""
+    while True:
+        ct = code_toks(tokenize(text))
+        hit = None
+        for i in range(len(ct) - 2):
+            if ct[i].kind == "ident" and ct[i].text == "format" and ct[i+1].text == "!" and ct[i+2].text in ("(", "["):
+                hit = i; break
+        if hit is None:
+            return text
+        j = match_close(ct, hit + 2)
+        args = _split_args(ct, hit + 3, j)
+        if not args or args[0][1] - args[0][0] != 1 or ct[args[0][0]].kind != "str" or not ct[args[0][0]].text.startswith('"'):
+            raise Undecided(f"{where}: format! whose first argument is not a plain string literal: rewrite R9 refused")
+        lit = ct[args[0][0]].text[1:-1]
+        if "\\u" in lit:
+            raise Undecided(f"{where}: format! literal with a \\u escape: rewrite R9 refused")
+        # parse the template
+        pieces, holes, cur, k = [], [], "", 0
+        while k < len(lit):
+            c = lit[k]
+            if c == "\\":
+                cur += lit[k:k+2]; k += 2; continue
+            if c == "{":
+                if lit.startswith("{{", k):
+                    cur += "{"; k += 2; continue
+                e = lit.find("}", k)
+                if e < 0:
+                    raise Undecided(f"{where}: malformed format string: rewrite R9 refused")
+                h = lit[k+1:e]
+                if h != "" and not re.fullmatch(r"[A-Za-z_][A-Za-z0-9_]*", h):
+                    raise Undecided(f"{where}: format hole `{{{h}}}` has a format spec or a positional index: rewrite R9 refused")
+                pieces.append(cur); cur = ""; holes.append(h); k = e + 1; continue
+            if c == "}":
+                if lit.startswith("}}", k):
+                    cur += "}"; k += 2; continue
+                raise Undecided(f"{where}: malformed format string: rewrite R9 refused")
+            cur += c; k += 1
+        pieces.append(cur)
+        exprs = []
+        for (a, b) in args[1:]:
+            toks = ct[a:b]
+            if len(toks) >= 2 and toks[0].kind == "ident" and toks[1].text == "=" and not (len(toks) > 2 and toks[2].text == "="):
+                raise Undecided(f"{where}: named format argument: rewrite R9 refused")
+            if any(t.kind == "punct" and t.text == "|" for t in toks):
+                for t in toks:
+                    if (t.kind == "ident" and t.text in ("return", "break", "continue")) or (t.kind == "punct" and t.text == "?"):
+                        raise Undecided(f"{where}: R9/R4 refused: control flow inside a dropped format argument")
+                notes.append({"rule": "R4", "where": where, "dropped_sha256": hashlib.sha256(norm(toks).encode()).hexdigest(), "dropped_tokens": len(toks), "context": "format argument containing a closure"})
+                exprs.append("opaque_string()")
+            else:
+                exprs.append(text[toks[0].start:toks[-1].end])
+        actual, pos = [], 0
+        for h in holes:
+            if h == "":
+                if pos >= len(exprs):
+                    raise Undecided(f"{where}: format! with fewer arguments than holes: rewrite R9 refused")
+                actual.append(exprs[pos]); pos += 1
+            else:
+                actual.append(h)
+        if pos != len(exprs):
+            raise Undecided(f"{where}: format! with unused arguments: rewrite R9 refused")
+        name = "fmt_" + hashlib.sha256(("\x00".join(pieces)).encode()).hexdigest()[:10]
+        n = len(actual)
+        terms = []
+        for q, p in enumerate(pieces):
+            if p != "": terms.append(f'"{p}"@')
+            if q < n: terms.append(f"a{q}.disp()")
+        rhs = " + ".join(terms) if terms else "Seq::<char>::empty()"
+        gen = "<" + ", ".join(f"A{q}: DispView" for q in range(n)) + ">" if n else ""
+        params = ", ".join(f"a{q}: &A{q}" for q in range(n))
+        FMT_DECLS[name] = (f"// ASSUME:fmt R9: format!(\"{lit}\", ..) renders its pieces and the Display text of its arguments, in order\n"
+                           f"#[verifier::external_body]\npub fn {name}{gen}({params}) -> (r: String)\n    ensures r@ == {rhs},\n{{ unimplemented!() }}\n")
+        call = f"{name}(" + ", ".join(f"&({e})" for e in actual) + ")"
+        notes.append({"rule": "R9", "where": where, "template": lit, "holes": len(actual), "stand_in": name})
+        text = text[:ct[hit].start] + call + text[ct[j].end:]
+
+_STRPLUS_LEFT_STOP = ("{", ";", ",", "(", "=", "return", "else")
+def rewrite_strplus(text, notes, where):
+    """R10"""
+    while True:
+        ct = code_toks(tokenize(text))
+        hit = None
+        for i, t in enumerate(ct):
+            if t.kind == "punct" and t.text == "+" and not (i + 1 < len(ct) and ct[i+1].text == "=" and ct[i+1].start == t.end):
+                hit = i; break
+        if hit is None:
+            return text
+        # left boundary
+        a = hit - 1
+        while a >= 0:
+            t = ct[a]
+            if t.kind == "punct" and t.text in ")]}":
+                # jump to the matching opener
+                depth, b = 0, a
+                while b >= 0:
+                    if ct[b].kind == "punct" and ct[b].text in ")]}": depth += 1
+                    elif ct[b].kind == "punct" and ct[b].text in "([{":
+                        depth -= 1
+                        if depth == 0: break
+                    b -= 1
+                a = b - 1; continue
+            if (t.kind == "punct" and t.text in ("{", ";", ",", "(", "=", "[")) or (t.kind == "ident" and t.text in ("return", "else")) or \
+               (t.kind == "punct" and t.text == ">" and a > 0 and ct[a-1].text == "=" and ct[a-1].end == t.start):
+                break
+            a -= 1
+        lo = a + 1
+        # right boundary
+        b = hit + 1
+        while b < len(ct):
+            t = ct[b]
+            if t.kind == "punct" and t.text in "([{":
+                b = match_close(ct, b) + 1; continue
+            if t.kind == "punct" and t.text in (",", ";", ")", "}", "]"):
+                break
+            b += 1
+        hi = b
+        ops, k, start = [], lo, lo
+        while k < hi:
+            t = ct[k]
+            if t.kind == "punct" and t.text in "([{":
+                k = match_close(ct, k) + 1; continue
+            if t.kind == "punct" and t.text == "+":
+                ops.append((start, k)); start = k + 1
+            elif t.kind == "punct" and t.text in ("-", "/", "%", "<", ">", "|", "=", "?") or (t.kind == "ident" and t.text in ("as", "if", "match")):
+                raise Undecided(f"{where}: operand of `+` is not a simple expression: rewrite R10 refused")
+            k += 1
+        ops.append((start, hi))
+        if any(e <= s for (s, e) in ops):
+            raise Undecided(f"{where}: empty operand of `+`: rewrite R10 refused")
+        parts = [text[ct[s].start:ct[e-1].end] for (s, e) in ops]
+        acc = parts[0]
+        for p in parts[1:]:
+            acc = f"str_add({acc}, {p})"
+        notes.append({"rule": "R10", "where": where, "operands": len(parts)})
+        text = text[:ct[lo].start] + acc + text[ct[hi-1].end:]
+
+def split_nested(fn_dirs, where):
+    """@@nested NAME .. @@end-nested groups -> (outer directives, {NAME: directives})"""
+    outer, nested, cur = [], {}, None
+    for d in fn_dirs:
+        if d["name"] == "nested":
+            cur = d["arg"]; nested.setdefault(cur, [])
+        elif d["name"] == "end-nested":
+            cur = None
+        elif cur is not None:
+            nested[cur].append(d)
+        else:
+            outer.append(d)
+    return outer, nested
+
+def annotate_nested(text, nested, where, notes):
+    for name, dirs in nested.items():
+        ct = code_toks(tokenize(text))
+        hits = [i for i in range(1, len(ct) - 1) if ct[i].kind == "ident" and ct[i].text == "fn" and ct[i+1].text == name and i > 2]
+        if len(hits) != 1:
+            raise Undecided(f"{where}: nested fn `{name}`: {len(hits)} matches -- lost item")
+        i = hits[0]
+        k = i
+        while not (ct[k].kind == "punct" and ct[k].text == "{"):
+            if ct[k].kind == "punct" and ct[k].text in "([":
+                k = match_close(ct, k)
+            k += 1
+        c = match_close(ct, k)
+        inner = apply_dirs(text[ct[i].start:ct[c].end], dirs, f"{where}::{name}", notes)
+        text = text[:ct[i].start] + inner + text[ct[c].end:]
+    return text
 
 def rewrite_strmatch(text, notes, where):
     """R7"""
@@ -295,7 +480,12 @@ def loops_of(ct):
 def annotate_fn(text, fn_dirs, where, notes):
     """text: full source of one fn item (signature + body or `;`)."""
     _for_counter[0] = 0
-    text = rewrite_format(text, notes, where)
+    if any(d["name"] == "rewrite" and d["arg"] == "fmt_template" for d in fn_dirs):
+        text = rewrite_format_template(text, notes, where)
+    else:
+        text = rewrite_format(text, notes, where)
+    if any(d["name"] == "rewrite" and d["arg"] == "strplus" for d in fn_dirs):
+        text = rewrite_strplus(text, notes, where)
     text = rewrite_for(text, notes, where)
     if any(d["name"] == "rewrite" and d["arg"] == "strmatch" for d in fn_dirs):
         text = rewrite_strmatch(text, notes, where)
@@ -304,6 +494,12 @@ def annotate_fn(text, fn_dirs, where, notes):
     for d in fn_dirs:
         if d["name"] == "opaque-arg":
             text = opaque_arg(text, d, where, notes)
+    fn_dirs, nested = split_nested(fn_dirs, where)
+    if nested:
+        text = annotate_nested(text, nested, where, notes)
+    return apply_dirs(text, fn_dirs, where, notes)
+
+def apply_dirs(text, fn_dirs, where, notes):
     ct = code_toks(tokenize(text))
     # drop attributes in front of the fn
     first = strip_attrs(ct, 0)
@@ -595,6 +791,10 @@ def main():
             else:
                 raise Undecided(f"{d['file']}:{d['line']}: unexpected directive @@{d['name']}")
         text = "".join(out)
+        if FMT_DECLS:
+            if "// @@FMT-DECLS@@" not in text:
+                raise Undecided("R9 was applied but the contract has no `// @@FMT-DECLS@@` line")
+            text = text.replace("// @@FMT-DECLS@@", "".join(FMT_DECLS[k] for k in sorted(FMT_DECLS)), 1)
         with open(outp, "w") as f:
             f.write(text)
         if rep_path:
